@@ -5,7 +5,7 @@ import sys, os, subprocess, glob, json
 
 VERIF = "/verif"
 ALT = {"C04-A": ["C15"], "C04-r2A": ["C15"], "C10-B": ["C12"], "C11-A": ["C16"], "C19-r2B": ["C03"], "C08-r2B": ["C14"],
-       "C14-A": ["C07"], "C14-B": ["C07"], "C14-r2A": ["C01"], "C20-r2B": ["C16"], "C06-r3A": ["C14"]}
+       "C14-A": ["C07"], "C14-B": ["C07"], "C14-r2A": ["C01"], "C20-r2B": ["C16"], "C06-r3A": ["C14"], "C01-r3A": ["C14"], "C11-r3A": ["C16"], "C12-r3B": ["C03"], "C19-r3A": ["C01"], "C19-r3B": ["C08"], "C16-r3B": ["C12"]}
 
 
 def main():
